@@ -459,3 +459,105 @@ def h_run_sync_race(exc: bool, cd: int, ct: int, b0: int, bx: int, b1: int, late
                     reached("completion_first_equal_deadline")
         assert not px.log.errors, "unexpected error log: %r" % (px.log.errors,)
         assert not v.exc_contexts, "exception escaped to the asyncio loop: %r" % (v.exc_contexts,)
+
+
+# ----------------------------------------------------------------------------------------------
+# add_timeout(timedelta) with a DAYS component or a NEGATIVE value: deadline = now + total_seconds()
+TD_POOL = (-1, 0, 1, 86399, 86400, 86401, 172800)      # seconds; 86401 = timedelta(days=1, seconds=1); -1 = days=-1, seconds=86399
+TD_ADV = (1, 2, 86399, 172800)                          # clock advances (integer seconds)
+
+
+def _pick(pool, i):
+    for j in range(len(pool) - 1):
+        if i == j:
+            return pool[j]
+    return pool[len(pool) - 1]
+
+
+def pre_td(ops: List[int]) -> bool:
+    if len(ops) > P.N:
+        return False
+    for c in ops:
+        if not 0 <= c < len(TD_POOL) + len(TD_ADV):
+            return False
+    return in_shard(ops[0] if len(ops) > 0 else 0)
+
+
+@harness(
+    pre=pre_td,
+    quick=dict(N=3, timeout=120, reach_timeout=60),
+    thorough=dict(N=4, timeout=1200, reach_timeout=60),
+    nshards=11,
+    reach=["negative_fires_at_once", "day_component_after_shorter", "day_component_not_early"],
+    units=["ioloop.IOLoop.add_timeout (timedelta branch: total_seconds)", "platform.asyncio.BaseAsyncIOLoop.call_at",
+           "ioloop.IOLoop._run_callback"],
+    stubs=STUBS + ["timedeltas from the pool {-1 s, 0, 1 s, 86399 s, 86400 s, 86401 s (days=1, seconds=1), 2 days}, built as "
+                   "datetime.timedelta(seconds=v) (normalised by datetime into days/seconds); clock advances from "
+                   "{1, 2, 86399, 172800} s; all concrete per path, chosen by the solver through a symbolic index",
+                   "a deadline that is already past when it is scheduled counts as due at the scheduling time (the asyncio "
+                   "bridge clamps the delay at 0): ordering is checked on max(deadline, time of scheduling)"],
+    outside=["timedeltas outside the pool", "microsecond components (C39 covers sub-second periods)"],
+)
+def h_td(ops: List[int]):
+    """ops < 7: add_timeout(timedelta(seconds=TD_POOL[op])) | ops >= 7: let the loop run for TD_ADV[op-7] seconds.
+    Oracle: a timeout fires exactly when its deadline now+total_seconds() has been reached (never before, not later
+    than the advance that crosses it), once, and timeouts fire in deadline order."""
+    with _Patched() as px:
+        env, loop = px.env, px.loop
+        ran = []                 # (id, time)
+        timers = []              # dict(id, deadline, eff, secs, state)
+        pos = [0]
+
+        def mk(i):
+            def cb():
+                ran.append((i, env.v.now))
+            return cb
+
+        def settle(now):
+            seg = ran[pos[0]:]
+            pos[0] = len(ran)
+            ids = [i for i, _ in seg]
+            assert len(set(ids)) == len(ids), "a timeout ran twice: %r" % (ids,)
+            due = [t for t in timers if t["state"] == 'P' and t["deadline"] <= now]
+            assert sorted(ids) == sorted(t["id"] for t in due), \
+                "timeouts that ran %r != timeouts whose deadline now+total_seconds() was reached %r (now=%r, all=%r)" % (
+                    ids, [t["id"] for t in due], now, [(t["id"], t["deadline"]) for t in timers])
+            last = None
+            for i, at in seg:
+                t = [x for x in due if x["id"] == i][0]
+                assert at >= t["deadline"], "timeout ran before its deadline"
+                assert at == t["eff"], "timeout ran at %r, its deadline was %r" % (at, t["eff"])
+                if last is not None:
+                    assert t["eff"] >= last["eff"], "timeouts ran out of deadline order"
+                    if t["secs"] >= 86400 and last["id"] > t["id"]:
+                        hit.append("day_component_after_shorter")
+                last = t
+                t["state"] = 'F'
+                if t["secs"] < 0:
+                    hit.append("negative_fires_at_once")
+
+        hit = []
+        now = env.v.now
+        nid = 0
+        for c in ops:
+            if c < len(TD_POOL):
+                secs = _pick(TD_POOL, c)
+                nid += 1
+                loop.add_timeout(datetime.timedelta(seconds=secs), mk(nid))
+                timers.append(dict(id=nid, deadline=now + secs, eff=max(now, now + secs), secs=secs, state='P'))
+                assert len(ran) == pos[0], "a timeout ran synchronously"
+            else:
+                adv = _pick(TD_ADV, c - len(TD_POOL))
+                env.advance(adv)
+                now = now + adv
+                settle(now)
+                if any(t["secs"] >= 86400 and t["state"] == 'P' for t in timers) and adv >= 86399:
+                    hit.append("day_component_not_early")
+        env.advance(2 * 172800 + 5)
+        now = now + 2 * 172800 + 5
+        settle(now)
+        assert all(t["state"] == 'F' for t in timers), "a timeout never ran"
+        for tag in hit:
+            reached(tag)
+        assert not px.log.errors, "unexpected error log %r" % (px.log.errors,)
+        assert not env.v.exc_contexts and not env.v.pending_timers()
